@@ -119,6 +119,8 @@ func runC07(c C07Case) *Result {
 	res := &Result{}
 	f := &model.Forest{}
 	lc := &lightClient{}
+	lc2 := &lightClient{} // a second wallet served from the same block data: it remembers the additions the first one does not
+	expect2 := map[int]bool{}
 	pol := newInst(Cfg{Kind: "pollard"})
 	expect := map[int]bool{}
 	big := &lightClient{stump: u.Stump{Roots: highRoots(c.High), NumLeaves: c.High}}
@@ -145,6 +147,15 @@ func runC07(c C07Case) *Result {
 		if err := lc.update(delH, proof, addH, b.Rem); err != nil {
 			return res.failf("block %d: updating the light client failed: %v", i, err)
 		}
+		var rem2 []int
+		for k := 0; k < b.Add; k++ {
+			if !inSet(b.Rem, k) {
+				rem2 = append(rem2, k)
+			}
+		}
+		if err := lc2.follow(lc, rem2); err != nil {
+			return res.failf("block %d: updating a second wallet with the same block data and UpdateData failed: %v", i, err)
+		}
 		if err := pol.P.Modify(adds, cloneHashes(delH), cloneProof(proof)); err != nil {
 			res.class("setup-failed")
 			return res
@@ -152,9 +163,13 @@ func runC07(c C07Case) *Result {
 		applyToModel(f, b)
 		for _, s := range b.Del {
 			delete(expect, s)
+			delete(expect2, s)
 		}
 		for _, r := range b.Rem {
 			expect[first+r] = true
+		}
+		for _, r := range rem2 {
+			expect2[first+r] = true
 		}
 		v2 := f.View()
 		if err := (&Inst{Cfg: Cfg{Kind: "stump"}, S: &lc.stump}).checkRoots(v2); err != nil {
@@ -163,6 +178,9 @@ func runC07(c C07Case) *Result {
 		}
 		if err := checkCachedProof(f, lc.stump, lc.hashes, lc.proof, expect, true); err != nil {
 			return res.failf("after block %d {del %v, add %d, remember %v}: %v", i, b.Del, b.Add, b.Rem, err)
+		}
+		if err := checkCachedProof(f, lc.stump, lc2.hashes, lc2.proof, expect2, true); err != nil {
+			return res.failf("after block %d {del %v, add %d}: second wallet (remembers %v; fed the same block-data slices right after the first, with the same UpdateData value or, every other block, one rebuilt from its exported fields): %v", i, b.Del, b.Add, rem2, err)
 		}
 		if c.High != 0 {
 			if !highOK(c.High, f.N()) {
